@@ -15,6 +15,7 @@ VisitVerdict(e) ==
       io == InOrderNodes(h, root)
       S == Reach(h, root)
   IN  {"full_" \o o : o \in {o \in Orders : e.orders[o].full # exp(o)}}
+ \cup {"reentrant_" \o o : o \in {o \in Orders : \E k \in 1..Len(e.orders[o].nested) : e.orders[o].nested[k] # exp(o)}}
  \cup {"stop_" \o o : o \in {o \in Orders : \E k \in 1..Len(e.orders[o].stops) :
             LET s == e.orders[o].stops[k] IN
               \/ s.calls # Stopped(exp(o), s.k)
